@@ -29,7 +29,7 @@ _SCIPY_CURVE_FIT = scipy.optimize.curve_fit
 
 NAME = "fit"
 PROPERTY = "C10"
-TIERS = {"quick": (8000, 90.0), "thorough": (250000, 1800.0)}
+TIERS = {"quick": (6500, 90.0), "thorough": (250000, 1800.0)}
 CHANGE_KINDS = {"fit"}
 OBSERVE_KINDS = {"fit"}
 RULE = ("one run = 1-3 consecutive fit_variogram calls on one model object; each call has a "
